@@ -3,9 +3,9 @@
    reference-level plans before / after the push.  Definitions only; Proof/Pushdown.v proves when
    the push preserves the result, the `Push` cases of the correspondence run apply the REAL rule.
 
-   The rule classifies a predicate by the tables of the columns it FINDS: collect_expr_tables
-   descends through BinaryOp and UnaryOp nodes only, so columns inside IN lists, BETWEEN, LIKE,
-   IS NULL ... are not seen (vis_sides); all_sides is what the predicate really mentions.
+   all_sides is what a predicate really mentions; vis_sides is what collect_expr_tables saw
+   BEFORE the repair (it descended through BinaryOp and UnaryOp nodes only, so columns inside IN
+   lists, BETWEEN, LIKE, IS NULL ... were missed) and is kept for the historical refutations.
    Columns are positions of the concatenated row: the left input owns positions < wl. *)
 From Coq Require Import ZArith List Bool.
 From TV Require Import Model.SqlSpec Model.QuerySpec.
@@ -34,8 +34,24 @@ Fixpoint all_sides (wl : nat) (e : expr) : bool * bool :=
 
 Inductive push_out := PStay | PLeft | PRight | POther.
 
-(* try_push_filter, Join arm: the join type is not consulted *)
-Definition push_decision (wl : nat) (p : expr) : push_out :=
+(* when is the push a sound plan rewrite (Proof/Pushdown.v)? *)
+Definition left_push_ok (k : jkind) : bool := match k with JCross | JInner | JLeft => true | _ => false end.
+Definition right_push_ok (k : jkind) : bool := match k with JCross | JInner | JRight => true | _ => false end.
+
+(* try_push_filter, Join arm, as repaired in /repo (commit 2cb4862): the predicate is classified by
+   ALL the columns it mentions (collect_expr_tables now visits every expression kind; the harness
+   prints qualified columns only, so the classification never fails), and it moves onto the left
+   input only under INNER / CROSS / LEFT, onto the right input only under INNER / CROSS / RIGHT *)
+Definition push_decision (k : jkind) (wl : nat) (p : expr) : push_out :=
+  match all_sides wl p with
+  | (true, false) => if left_push_ok k then PLeft else PStay
+  | (false, true) => if right_push_ok k then PRight else PStay
+  | _ => PStay
+  end.
+
+(* HISTORICAL (before 2cb4862; findings F-C19-4 and F-C19-6): the rule classified by the columns
+   it happened to see (vis_sides) and did not consult the join type *)
+Definition push_decision_old (wl : nat) (p : expr) : push_out :=
   match vis_sides wl p with
   | (true, false) => PLeft
   | (false, true) => PRight
@@ -54,8 +70,5 @@ Definition shift_down (wl : nat) (i : nat) : nat := (i - wl)%nat.
 Definition plan_right (k : jkind) (on : expr) (wl wr : nat) (L R : table) (p : expr) : table :=
   join_spec k on wl wr L (filter (passes (remap (shift_down wl) p)) R).
 
-(* when is the push a sound plan rewrite (Proof/Pushdown.v)? *)
-Definition left_push_ok (k : jkind) : bool := match k with JCross | JInner | JLeft => true | _ => false end.
-Definition right_push_ok (k : jkind) : bool := match k with JCross | JInner | JRight => true | _ => false end.
 Definition only_left (wl : nat) (p : expr) : bool := negb (snd (all_sides wl p)).
 Definition only_right (wl : nat) (p : expr) : bool := negb (fst (all_sides wl p)).
